@@ -190,6 +190,27 @@ Definition output_aliases_input (inF outF : sp) (s : ist) : bool :=
                           end
        end.
 
+(* rejectGridImageOutputAlias / rejectNUpImageOutputAlias / rejectBookletImageOutputAlias /
+   validateImportImagesOutput: `for i, inFile := range inFiles { if outputAliasesInput(inFile, outFile) { refuse } }` —
+   the output is compared with EVERY input *)
+Definition reject_alias (ins : list sp) (out : sp) (s : ist) : bool :=
+  existsb (fun x => output_aliases_input x out s) ins.
+
+(* the image mode of GridFile / NUpFile / BookletFile: refuse an output that aliases any image; the images are
+   not opened by the skeleton (f1 == nil): openStagedOutput(nil, inFiles[0], outFile); body; commit *)
+Definition multi_image_i (ins : list sp) (out : sp) (b : list bstep) (s : ist) : rr unit :=
+  if reject_alias ins out s then RErr EEXIST s
+  else api_i None (head ins) (Some out) b s.
+
+(* ImportImagesFile(imgFiles, outFile): refuse an aliasing output; importImagesInputFile: an existing outFile is
+   opened and appended to (inFile = outFile: in-place update of outFile), a missing one is created *)
+Definition import_images_i (ins : list sp) (out : sp) (b : list bstep) (s : ist) : rr unit :=
+  if reject_alias ins out s then RErr EEXIST s
+  else match open_rd out s with
+       | ROk _ _ => api_i (Some out) (Some out) (Some out) b s
+       | RErr _ _ => api_i None None (Some out) b s
+       end.
+
 (* pkg/pdfcpu/io.go createStagedFile(path): openStagedFile = O_RDWR|O_CREATE|O_EXCL on a random name with
    perm 0666 (the file gets 0666 &^ umask); then `if fi, err := os.Stat(path); err == nil { f.Chmod(fi.Mode().Perm()) }`:
    the explicit chmod is not subject to the umask *)
@@ -249,3 +270,5 @@ Definition run_api_i (umask : N) := api_i fresh_ent_hi fresh_ino_hi umask.
 Definition run_copy_i (umask : N) := copy_file_i fresh_ent_hi fresh_ino_hi umask.
 Definition run_write_reader_i (umask : N) := write_reader_i fresh_ent_hi fresh_ino_hi umask.
 Definition run_aliases := output_aliases_input.
+Definition run_multi_image_i (umask : N) := multi_image_i fresh_ent_hi fresh_ino_hi umask.
+Definition run_import_images_i (umask : N) := import_images_i fresh_ent_hi fresh_ino_hi umask.
